@@ -217,3 +217,106 @@ func r16tAddressingIsStateless(c *core.Ctx) {
 	}
 	c.Check(R, "stateless/summary", roots[0].Pos(), bad == 0 && nmod >= 6, fmt.Sprintf("%d module functions below the addressing functions: no package-level store, no cache map, no sync", nmod), fmt.Sprintf("%d uses of shared state", bad))
 }
+
+func init() { reg("R47", r47SchemaCopied) }
+
+// R47: the target table is created from the source table's description, field
+// by field: name, columns (createSQL, R33), geometry column, geometry type and
+// spatial reference system; CreateTables handles every table and returns the
+// first error; GetTableInfo fills each Table from the source's own catalogue.
+func r47SchemaCopied(c *core.Ctx) {
+	const R = "R47"
+	bt := c.Anchor(R, "gpkg.buildTable")
+	ct := c.Anchor(R, "gpkg.TargetGeopackage.CreateTables")
+	gi := c.Anchor(R, "gpkg.SourceGeopackage.GetTableInfo")
+	if bt == nil || ct == nil || gi == nil {
+		return
+	}
+	info := bt.Pkg.TypesInfo
+	tParam := bt.Obj.Type().(*types.Signature).Params().At(1)
+	// TableDescription literal
+	lit := findLit(info, bt.Decl.Body, "github.com/go-spatial/geom/encoding/gpkg.TableDescription")
+	if lit == nil {
+		ast.Inspect(bt.Decl.Body, func(n ast.Node) bool {
+			if cl, ok := n.(*ast.CompositeLit); ok && lit == nil && strings.HasSuffix(info.TypeOf(cl).String(), "gpkg.TableDescription") {
+				lit = cl
+			}
+			return lit == nil
+		})
+	}
+	want := map[string]string{"Name": "Name", "GeometryField": "gcolumn", "GeometryType": "gtype", "SRS": "srs.ID"}
+	got := map[string]string{}
+	if lit != nil {
+		for _, el := range lit.Elts {
+			kv, ok := el.(*ast.KeyValueExpr)
+			if !ok {
+				continue
+			}
+			val := stripConv(info, kv.Value)
+			// t.<field> chain
+			path := ""
+			for {
+				sel, ok := ast.Unparen(val).(*ast.SelectorExpr)
+				if !ok {
+					break
+				}
+				if path == "" {
+					path = sel.Sel.Name
+				} else {
+					path = sel.Sel.Name + "." + path
+				}
+				val = sel.X
+			}
+			if core.ObjOf(info, val) == tParam {
+				got[canon(kv.Key)] = path
+			}
+		}
+	}
+	bad := ""
+	for k, w := range want {
+		if got[k] != w {
+			bad += fmt.Sprintf("%s is set from t.%s, expected t.%s; ", k, got[k], w)
+		}
+	}
+	c.Check(R, "geometry-table-registered-from-source-description/"+bt.Name, bt.Decl.Pos(), lit != nil && bad == "", "AddGeometryTable{Name: t.Name, GeometryField: t.gcolumn, GeometryType: t.gtype, SRS: t.srs.ID}", "the target's geometry table is not registered with the source table's own name/geometry column/type/srs: "+bad)
+	// createSQL of the same table is executed before registration
+	execs := core.CallsIn(info, bt.Decl, "database/sql.DB.Exec")
+	okCreate := false
+	for _, e := range execs {
+		if o := core.ObjOf(info, e.Args[0]); o != nil {
+			if def := singleDef(info, bt.Decl.Body, o); def != nil {
+				if call, ok := def.(*ast.CallExpr); ok && core.IsCallTo(info, call, "gpkg.Table.createSQL") {
+					if sel, ok := call.Fun.(*ast.SelectorExpr); ok && core.ObjOf(info, sel.X) == tParam {
+						okCreate = true
+					}
+				}
+			}
+		}
+	}
+	c.Check(R, "table-created-from-source-columns/"+bt.Name, bt.Decl.Pos(), okCreate, "Exec(t.createSQL()) for the same table", "the target table is not created with the source table's createSQL()")
+	// CreateTables: every table, srs first, first error returned
+	cinfo := ct.Pkg.TypesInfo
+	tables := ct.Obj.Type().(*types.Signature).Params().At(0)
+	okAll := false
+	for _, s := range ct.Decl.Body.List {
+		r, ok := s.(*ast.RangeStmt)
+		if !ok || core.ObjOf(cinfo, r.X) != tables || hasJump(r.Body, token.BREAK, token.CONTINUE, token.GOTO).IsValid() {
+			continue
+		}
+		tv := core.ObjOf(cinfo, r.Value)
+		srs := core.CallsIn(cinfo, r.Body, "github.com/go-spatial/geom/encoding/gpkg.Handle.UpdateSRS")
+		build := core.CallsIn(cinfo, r.Body, "gpkg.buildTable")
+		if len(srs) == 1 && len(build) == 1 && srs[0].Pos() < build[0].Pos() && core.ObjOf(cinfo, build[0].Args[1]) == tv && tv != nil {
+			if sel, ok := ast.Unparen(srs[0].Args[0]).(*ast.SelectorExpr); ok && sel.Sel.Name == "srs" && core.ObjOf(cinfo, sel.X) == tv {
+				okAll = true
+			}
+		}
+	}
+	c.Check(R, "every-table-created-with-its-srs/"+ct.Name, ct.Decl.Pos(), okAll, "for every table: UpdateSRS(table.srs) then buildTable(handle, table); no table skipped", "CreateTables does not create every source table with its own spatial reference system")
+	// GetTableInfo: fields filled from the source catalogue row of the same table
+	ginfo := gi.Pkg.TypesInfo
+	src := canonNode(c.P, gi.Decl.Body)
+	okInfo := strings.Contains(src, "Scan(&t.Name,&t.gcolumn,") && len(core.CallsIn(ginfo, gi.Decl, "gpkg.getTableColumns")) == 1 && len(core.CallsIn(ginfo, gi.Decl, "gpkg.getSpatialReferenceSystem")) == 1 && len(core.CallsIn(ginfo, gi.Decl, "gpkg.geometryTypeFromString")) == 1
+	c.Check(R, "table-description-read-from-source-catalogue/"+gi.Name, gi.Decl.Pos(), okInfo, "name and geometry column scanned from gpkg_geometry_columns; columns, geometry type and srs looked up for that table", "GetTableInfo no longer fills the table description from the source's catalogue")
+	c.Floor(R, 4)
+}
